@@ -313,9 +313,11 @@ fn fixed_cases() -> Vec<Case> {
 }
 
 fn run_case(c: &Case) -> Result<Result<String, String>, String> {
+    run_templates(c.templates.iter().map(|(a, b)| (a.to_string(), b.to_string())).collect(), c.main.to_string())
+}
+
+fn run_templates(templates: Vec<(String, String)>, main: String) -> Result<Result<String, String>, String> {
     // in a helper thread with a wall cap: "rather than hangs" is part of the statement
-    let templates: Vec<(String, String)> = c.templates.iter().map(|(a, b)| (a.to_string(), b.to_string())).collect();
-    let main = c.main.to_string();
     let (tx, rx) = std::sync::mpsc::channel();
     std::thread::Builder::new()
         .stack_size(8 << 20)
@@ -431,6 +433,32 @@ pub fn main(args: Args) -> i32 {
             });
         }
     }
+    // composition does not wear out: every fixed case that renders is included REPEAT times from one
+    // host render and must give its output REPEAT times (includes, imports and inheritance charge and
+    // release per-render resources such as the recursion budget; nothing may be left behind)
+    const REPEAT: usize = 120;
+    for c in fixed_cases() {
+        let Ok(expected) = c.expect else { continue };
+        acc.eval(1);
+        let mut templates: Vec<(String, String)> = c.templates.iter().map(|(a, b)| (a.to_string(), b.to_string())).collect();
+        templates.push(("rep_host".into(), format!("{{% for r_ in range({}) %}}{{% include '{}' %}}{{% endfor %}}", REPEAT, c.main)));
+        let got = run_templates(templates, "rep_host".into());
+        if got == Ok(Ok(expected.repeat(REPEAT))) {
+            acc.outcome("fixed case repeats without wear");
+            acc.nontrivial(fnv(format!("rep:{}", c.name).as_bytes()));
+        } else {
+            let short = |r: &Result<Result<String, String>, String>| match r {
+                Ok(Ok(s)) => format!("Ok({} bytes, {} repetitions of the expected output at the start)", s.len(), if expected.is_empty() { 0 } else { s.matches(expected).count() }),
+                other => format!("{:?}", other),
+            };
+            acc.fail(Failure {
+                key: format!("compose wears_out case={}", c.name),
+                case: format!("{} x{}", c.name, REPEAT),
+                detail: format!("included {} times from one render: {} (a single render gives {:?})", REPEAT, short(&got), expected),
+                replay: json!({"kind": "fixed_repeated", "name": c.name}),
+            });
+        }
+    }
     let sample = build_chain(3, 1234, true, ExtForm::Static);
     acc.sample(json!({"chain": sample.iter().map(|t| (t.name.clone(), tmpl_src(t))).collect::<Vec<_>>(), "resolver": format!("{:?}", resolve(&sample))}));
     acc.sample(json!({"fixed_case": "include_list_first_existing", "templates": fixed_cases()[6].templates, "expect": "second"}));
@@ -440,7 +468,7 @@ pub fn main(args: Args) -> i32 {
             level: "exploration",
             tier: args.tier,
             seed: args.seed,
-            rule: format!("all inheritance chains of length 1..={} in which every non-root template assigns each block of the alphabet {{a, b (nested in a in the root), c}} one of {{absent, override, override + super() before, override around super(), super() twice}} (5^3 per level), x root with/without block c, x extends form of the most derived template (static name, name from the context, inside a taken if, inside a not-taken if), x 9 ways of reaching the most derived template for chains up to length {} (rendered directly; included at top level, in a child block, in a macro called twice, in a loop body; include captured by a set block in a plain host and at the top level of an extending host, there also below a filter block and below a call block); expected output from a 60-line resolver (most derived definition, per-block parent cursor for super(), nested block tags render the most derived definition, text outside blocks of extending templates discarded, super() without parent fails); plus 50 hand-written include / import / error cases (include placements and name forms incl. lists and ignore missing, what an import exposes, extends and include cycles of length 1..3, double extends, missing parent, super() without parent or outside a block, required blocks, self.block()) each run under a 10 s wall cap so that a hang is a failure. distinct non-trivial = chains that render as resolved + fixed cases", max_len, reach_len),
+            rule: format!("all inheritance chains of length 1..={} in which every non-root template assigns each block of the alphabet {{a, b (nested in a in the root), c}} one of {{absent, override, override + super() before, override around super(), super() twice}} (5^3 per level), x root with/without block c, x extends form of the most derived template (static name, name from the context, inside a taken if, inside a not-taken if), x 9 ways of reaching the most derived template for chains up to length {} (rendered directly; included at top level, in a child block, in a macro called twice, in a loop body; include captured by a set block in a plain host and at the top level of an extending host, there also below a filter block and below a call block); expected output from a 60-line resolver (most derived definition, per-block parent cursor for super(), nested block tags render the most derived definition, text outside blocks of extending templates discarded, super() without parent fails); plus 50 hand-written include / import / error cases (include placements and name forms incl. lists and ignore missing, what an import exposes, extends and include cycles of length 1..3, double extends, missing parent, super() without parent or outside a block, required blocks, self.block()) each run under a 10 s wall cap so that a hang is a failure; every fixed case that renders is also included 120 times from one host render and must give its output 120 times. distinct non-trivial = chains that render as resolved + fixed cases", max_len, reach_len),
             exhaustive: true,
             bound: json!({"max_chain_len": max_len, "modes": ["absent", "override", "super_before", "super_inside", "super_twice"]}),
             assumptions: vec!["the resolver in c06.rs is the trusted base for chains; the expectations of the fixed cases were written by hand from the documentation".into()],
